@@ -542,6 +542,35 @@ func checkC05(c *Ctx) {
 	}
 
 	c05DropOnlyUnverified(c, "C05.12")
+	// C05.18 a failed view never shortens the next one: DynamicDuration.ViewTimeout stores mean*mul, and applies the
+	// upper bound only when one is configured (max == 0 means "no bound"; min(x, 0) would collapse the timeout to zero)
+	if vt := p.Method("protocol/synchronizer", "DynamicDuration", "ViewTimeout"); vt != nil {
+		fv := NewFlow(p, vt)
+		n := 0
+		var bad []string
+		eachInstr(vt, func(in ssa.Instruction) {
+			st, ok := in.(*ssa.Store)
+			if !ok {
+				return
+			}
+			fa, ok := st.Addr.(*ssa.FieldAddr)
+			if !ok || !strings.HasSuffix(fieldName(fa.X.Type(), fa.Field), "DynamicDuration.mean") {
+				return
+			}
+			n++
+			k := fv.K.Key(st.Val)
+			grows := strings.Contains(k, "DynamicDuration.mean * ") && strings.Contains(k, "DynamicDuration.mul")
+			capped := strings.Contains(k, "DynamicDuration.max")
+			if !grows && !capped {
+				bad = append(bad, p.InstrPos(in)+": mean := "+shortVal(k))
+			}
+			if capped && !hasCmp(fv.At(in), "<", is("c:0"), func(x string) bool { return strings.HasSuffix(x, "DynamicDuration.max") }) {
+				bad = append(bad, p.InstrPos(in)+": the upper bound is applied without testing that one is configured (max > 0)")
+			}
+		})
+		c.Check(n > 0 && len(bad) == 0, "C05.18", "DynamicDuration.ViewTimeout: a failed view lengthens the timeout", p.FuncPos(vt),
+			"mean := mean * mul; an upper bound only under max > 0", join(bad))
+	}
 	// C05.17 a leader that holds a QC proposes: every ruleset's ProposeRule refuses only a sync info without a QC
 	for _, t := range []string{"ChainedHotStuff", "SimpleHotStuff", "FastHotStuff"} {
 		pr := p.Method("protocol/rules", t, "ProposeRule")
